@@ -19,7 +19,7 @@ CONSTANTS
   Windows <- AllWindows
   Points <- AllPoints
   SpanChoice <- NoSpanChoice
-  SubsetCats = {0}
+  SubsetCats = {0, 1}
   Ops = {"Subset", "QueryList", "QueryRep"}
   Others <- OthersNone
   UpdateSeqids = {}
